@@ -69,7 +69,7 @@ def cases(ctx):
             table = None
         yield {"kind": "text", "text": _edit(rng, text), "table": table}
     for special in ("A = C(P = " + "x" * 10000 + ")", "A = C(P = \"" + "y" * 10000 + "\")", "A = C(P = " + "[" * 6 + "1" + "]" * 6 + ")", "A = C(P = " + "[" * 40 + "1" + "]" * 40 + ")",
-                    "", "   ", "\n\n", "#only a comment", "A", "A =", "A = C", "A = C(", "= C()", "A = C()()", "A = 1()", "1 = C()", "A = C(P = 1 2 3)", "A = C(P = [a: b: c])",
+                    "", "   ", "\n\n", "#only a comment", "A", "A =", "A = C", "A = C(", "= C()", "A = C()()", "A = 1()", "1 = C()", "A = C(P = 1 2 3)", "A = C(P = [a: b: c])", "A = C(P = [a, b: c])", "A = C(P = [1, [2, x: y]])", "A = C(P = [a, b: c, d])", "A = Sum(InFieldNames = [A, B: C])",
                     "A = C(P = [a: [1]])", "A = C(P = [[a: b]])", "A = C(P = \"\\N{BULLET}\")", "A = C(P = '\\x4')", "A = C(P = \"\\u12\")", "A = C(P = \"\\777\")", "\ufeffA = C(P = 1)",
                     "A = C(P = 1)\x00", "A = C(P = \x00)", "A = EEMSRead(InFileName = 5, InFieldName = 6)", "A = EEMSRead(InFileName = [a], InFieldName = [b: c])",
                     "A = Sum(InFieldNames = A)", "A = Sum(InFieldNames = [A])", "A = Copy(InFieldName = A, Metadata = 5)", "A = Copy(InFieldName = B, Metadata = [1, 2])",
